@@ -124,6 +124,20 @@ Section Requests.
   Lemma read_req_dead st : p_dead st = true -> read_req fault st = st.
   Proof. unfold read_req. now intros ->. Qed.
 
+  Lemma get_req_evs st b : p_evs (get_req fault st b) = p_evs st.
+  Proof. unfold get_req. destruct (p_dead st); [reflexivity|]. destruct (fault_now fault st); cbn; now rewrite app_nil_r. Qed.
+
+  Lemma get_req_w st b : p_w (get_req fault st b) = p_w st.
+  Proof. unfold get_req. destruct (p_dead st); [reflexivity|]. destruct (fault_now fault st); reflexivity. Qed.
+
+  Lemma load_slices_req_same (slices : N -> option (list pobj)) s st :
+    p_evs (load_slices_req fault slices st s) = p_evs st /\ p_w (load_slices_req fault slices st s) = p_w st.
+  Proof.
+    unfold load_slices_req. generalize (slice_refs s). intros l. revert st.
+    induction l as [|n r IH]; intros st; cbn; [auto|]. destruct (IH (get_req fault st (match slices n with Some _ => true | None => false end))) as [-> ->].
+    now rewrite get_req_evs, get_req_w.
+  Qed.
+
   (** What an Update request does. *)
   Lemma upd_req_spec st s life pbp st' s' :
     upd_req fault st s life pbp = (st', s') ->
@@ -190,20 +204,20 @@ Qed.
 (** [n] names a revision [r] of the ascending chain [L] that may be archived: r has confirmed it is paused, is
     not archived yet, is not the newest, and either a newer revision is Available, or r is unavailable, has
     reported what it controls and controls nothing the next newer revision contains. *)
-Definition archivable (L : list dset) (n : N) : Prop :=
+Definition archivable (objs : dset -> list okey) (L : list dset) (n : N) : Prop :=
   exists l1 r l2, L = l1 ++ r :: l2 /\ sname r = n /\ l2 <> [] /\ is_status_paused r = true /\ is_archived r = false /\
     ((exists s, In s l2 /\ is_available s = true /\ (srev r < srev s)%Z) \/
      (is_available r = false /\ exists nx l3 act, l2 = nx :: l3 /\ (srev r < srev nx)%Z /\ active_objects r = Some act /\
-        forall k, In k act -> ~ In k (set_objects nx))).
+        forall k, In k act -> ~ In k (objs nx))).
 
 (** The same on the descending list the Go loop walks. *)
-Definition cand (rl : list dset) (n : N) : Prop :=
+Definition cand (objs : dset -> list okey) (rl : list dset) (n : N) : Prop :=
   exists pre r post, rl = pre ++ r :: post /\ pre <> [] /\ sname r = n /\ is_status_paused r = true /\ is_archived r = false /\
     ((exists s, In s pre /\ is_available s = true /\ (srev r < srev s)%Z) \/
      (is_available r = false /\ exists pre' nx act, pre = pre' ++ [nx] /\ (srev r < srev nx)%Z /\ active_objects r = Some act /\
-        is_nil (inter_keys (set_objects nx) act) = true)).
+        is_nil (inter_keys (objs nx) act) = true)).
 
-Lemma cand_cons c rl n : cand rl n -> cand (c :: rl) n.
+Lemma cand_cons objs c rl n : cand objs rl n -> cand objs (c :: rl) n.
 Proof.
   intros (pre & r & post & -> & Hne & Hn & Hp & Ha & Hd). exists (c :: pre), r, post. repeat split; auto; [discriminate|].
   destruct Hd as [(s & Hs & H1 & H2)|(Hav & pre' & nx & act & -> & H)].
@@ -211,7 +225,7 @@ Proof.
   - right. split; [assumption|]. exists (c :: pre'), nx, act. split; [reflexivity|exact H].
 Qed.
 
-Lemma cand_archivable L n : cand (rev L) n -> archivable L n.
+Lemma cand_archivable objs L n : cand objs (rev L) n -> archivable objs L n.
 Proof.
   intros (pre & r & post & E & Hne & Hn & Hp & Ha & Hd).
   assert (EL : L = rev post ++ r :: rev pre).
@@ -226,6 +240,9 @@ Qed.
 
 Section Archive.
   Variable fault : option (nat * bool).
+  Variable slices : N -> option (list pobj).
+  Variable sliceaware : bool.
+  Let objs := seen_objects slices sliceaware.
 
   Lemma ensure_paused_true st mem s st' mem' :
     ensure_paused fault st mem s = (st', mem', true) -> is_status_paused s = true /\ st' = st /\ mem' = mem.
@@ -251,19 +268,19 @@ Section Archive.
   Qed.
 
   Lemma intermediate_true st mem prev cur st' mem' :
-    intermediate fault st mem prev cur = (st', mem', true) ->
+    intermediate fault slices sliceaware st mem prev cur = (st', mem', true) ->
     is_status_paused prev = true /\ is_available prev = false /\
-    exists act, active_objects prev = Some act /\ is_nil (inter_keys (set_objects cur) act) = true.
+    exists act, active_objects prev = Some act /\ is_nil (inter_keys (objs cur) act) = true.
   Proof.
     unfold intermediate. destruct (active_objects prev) as [act|]; [|discriminate].
-    destruct (is_nil (inter_keys (set_objects cur) act)) eqn:Ei; cbn [andb]; [|discriminate].
+    fold objs. destruct (is_nil (inter_keys (objs cur) act)) eqn:Ei; cbn [andb]; [|discriminate].
     destruct (is_available prev); cbn [negb]; [discriminate|]. intros H. apply ensure_paused_true in H.
     split; [tauto|]. split; [reflexivity|]. exists act. auto.
   Qed.
 
   (** objectSetsToBeArchived only names archivable revisions: for every chain, any length, any flags. *)
   Lemma to_archive_sound : forall rl st mem st' mem' l,
-    to_archive fault st mem rl = (st', mem', l) -> forall n, In n l -> cand rl n.
+    to_archive fault slices sliceaware st mem rl = (st', mem', l) -> forall n, In n l -> cand objs rl n.
   Proof.
     induction rl as [|cur rest IH]; intros st mem st' mem' l H n Hn; [cbn in H; injection H as _ _ <-; contradiction|].
     cbn [to_archive] in H. destruct (is_available cur) eqn:Eav.
@@ -273,8 +290,8 @@ Section Archive.
     - destruct rest as [|prev rest']; [injection H as _ _ <-; contradiction|].
       destruct (is_archived prev) eqn:Ea; [apply cand_cons; eapply IH; eauto|].
       destruct (srev cur <=? srev prev)%Z eqn:Er; [apply cand_cons; eapply IH; eauto|].
-      destruct (intermediate fault st mem prev cur) as [[st1 mem1] b] eqn:Ei.
-      destruct (to_archive fault st1 mem1 (prev :: rest')) as [[st2 mem2] l2] eqn:Et. injection H as _ _ <-.
+      destruct (intermediate fault slices sliceaware st mem prev cur) as [[st1 mem1] b] eqn:Ei.
+      destruct (to_archive fault slices sliceaware st1 mem1 (prev :: rest')) as [[st2 mem2] l2] eqn:Et. injection H as _ _ <-.
       assert (Hin : (b = true /\ n = sname prev) \/ In n l2).
       { destruct b; [destruct Hn as [<-|Hn]; [left; auto|now right]|now right]. }
       destruct Hin as [[-> ->]|Hin]; [|apply cand_cons; eapply IH; eauto].
@@ -284,12 +301,12 @@ Section Archive.
   Qed.
 
   Theorem archive_kernel_sound L st mem st' mem' l :
-    to_archive fault st mem (rev L) = (st', mem', l) -> forall n, In n l -> archivable L n.
+    to_archive fault slices sliceaware st mem (rev L) = (st', mem', l) -> forall n, In n l -> archivable objs L n.
   Proof. intros H n Hn. apply cand_archivable. eapply to_archive_sound; eauto. Qed.
 End Archive.
 
 (** The newest revision of a chain is never archivable (names unique). *)
-Lemma archivable_not_newest L n : NoDup (map sname L) -> archivable L n ->
+Lemma archivable_not_newest objs L n : NoDup (map sname L) -> archivable objs L n ->
   exists l0 newest, L = l0 ++ [newest] /\ sname newest <> n.
 Proof.
   intros Hnd (l1 & r & l2 & -> & Hn & Hne & _).
@@ -317,15 +334,25 @@ Proof.
   unfold sname, is_status_paused, is_available, active_objects in *. rewrite Hid, Hc, Ha, Hco, Hcs. repeat split; auto.
 Qed.
 
+Lemma seen_objects_core slices sliceaware a b : same_core a b -> seen_objects slices sliceaware a = seen_objects slices sliceaware b.
+Proof.
+  intros (Hid & Hr & Hc & Ha & Hco & Hcs & Hph & Hh).
+  assert (Eobj : set_objects a = set_objects b).
+  { unfold set_objects, all_objects. rewrite Hph. apply map_ext. intros p. unfold spec_key, desired_key, as_owner. cbn. now rewrite Hid. }
+  unfold seen_objects, full_objects, slice_refs, all_objects. destruct sliceaware; [|assumption]. rewrite Eobj, Hph. f_equal.
+  apply flat_map_ext. intros n. destruct (slices n); [|reflexivity]. apply map_ext. intros p. unfold spec_key, desired_key, as_owner. cbn. now rewrite Hid.
+Qed.
+
 Lemma Forall2_in_right {A B} (R : A -> B -> Prop) l l' : Forall2 R l l' -> forall y, In y l' -> exists x, In x l /\ R x y.
 Proof.
   induction 1 as [|x y l l' Hxy HF IH]; cbn; [contradiction|]. intros z [<-|Hz]; [exists x; auto|].
   destruct (IH z Hz) as (x' & Hx' & Hr). exists x'. auto.
 Qed.
 
-Lemma archivable_core L L' n : Forall2 same_core L L' -> archivable L' n -> archivable L n.
+Lemma archivable_core objs L L' n : (forall a b, same_core a b -> objs a = objs b) ->
+  Forall2 same_core L L' -> archivable objs L' n -> archivable objs L n.
 Proof.
-  intros HF (l1' & r' & l2' & -> & Hn & Hne & Hp & Ha & Hd).
+  intros Hobjs HF (l1' & r' & l2' & -> & Hn & Hne & Hp & Ha & Hd).
   apply Forall2_app_inv_r in HF. destruct HF as (l1 & x & _ & HF & ->).
   inversion HF as [|r ? l2 ? Hr H2]; subst.
   destruct (same_core_facts _ _ Hr) as (En & Erv & Esp & Eav & Ear & Eact & _ & _).
@@ -336,7 +363,7 @@ Proof.
       destruct (same_core_facts _ _ Hss) as (_ & Erv' & _ & Eav' & _). exists s. repeat split; try congruence.
     + right. split; [congruence|]. inversion H2 as [|nx ? l3 ? Hnx H3]; subst.
       destruct (same_core_facts _ _ Hnx) as (_ & Erv' & _ & _ & _ & _ & Eobj & _).
-      exists nx, l3, act. repeat split; try congruence. now rewrite Eobj.
+      exists nx, l3, act. repeat split; try congruence. now rewrite (Hobjs _ _ Hnx).
 Qed.
 
 (** * Part 3: one pass of the ObjectDeployment controller *)
@@ -379,6 +406,8 @@ Qed.
 Section PassEvents.
   Variable hash : N -> option N -> N.
   Variable fault : option (nat * bool).
+  Variable slices : N -> option (list pobj).
+  Variable sliceaware : bool.
 
   (** ** Pause propagation (objectset_reconciler.go:72-93) *)
   Definition pause_ev (paused : bool) (sets : list dset) (e : dev) : Prop :=
@@ -456,17 +485,22 @@ Section PassEvents.
   Qed.
 
   Lemma to_archive_news : forall rl st mem st' mem' l,
-    to_archive fault st mem rl = (st', mem', l) -> exists es, news st st' es /\ Forall ens_ev es.
+    to_archive fault slices sliceaware st mem rl = (st', mem', l) -> exists es, news st st' es /\ Forall ens_ev es.
   Proof.
     induction rl as [|cur rest IH]; intros st mem st' mem' l H; [cbn in H; injection H as <- _ _; exists []; split; [apply news_refl|constructor]|].
     cbn [to_archive] in H. destruct (is_available cur); [eapply archive_all_later_news; eauto|].
     destruct rest as [|prev rest']; [injection H as <- _ _; exists []; split; [apply news_refl|constructor]|].
     destruct (is_archived prev); [eapply IH; eauto|]. destruct (srev cur <=? srev prev)%Z; [eapply IH; eauto|].
-    destruct (intermediate fault st mem prev cur) as [[st1 mem1] b] eqn:Ei.
-    destruct (to_archive fault st1 mem1 (prev :: rest')) as [[st2 mem2] l2] eqn:Et. injection H as <- _ _.
+    destruct (intermediate fault slices sliceaware st mem prev cur) as [[st1 mem1] b] eqn:Ei.
+    destruct (to_archive fault slices sliceaware st1 mem1 (prev :: rest')) as [[st2 mem2] l2] eqn:Et. injection H as <- _ _.
     assert (H1 : exists es, news st st1 es /\ Forall ens_ev es).
-    { unfold intermediate in Ei. destruct (active_objects prev); [|injection Ei as <- _ _; exists []; split; [apply news_refl|constructor]].
-      destruct (is_nil _ && negb _); [eapply ensure_paused_news; eauto|injection Ei as <- _ _; exists []; split; [apply news_refl|constructor]]. }
+    { unfold intermediate in Ei.
+      set (st0 := if sliceaware then load_slices_req fault slices st cur else st) in Ei.
+      assert (H0 : p_evs st0 = p_evs st) by (unfold st0; destruct sliceaware; [apply load_slices_req_same|reflexivity]).
+      assert (Hnil : exists es, news st st0 es /\ Forall ens_ev es) by (exists []; split; [unfold news; now rewrite H0, app_nil_r|constructor]).
+      destruct (active_objects prev); [|injection Ei as <- _ _; exact Hnil].
+      destruct (is_nil _ && negb _); [|injection Ei as <- _ _; exact Hnil].
+      destruct (ensure_paused_news _ _ _ _ _ _ Ei) as (es & Hn & F). exists es. split; [unfold news in *; now rewrite Hn, H0|assumption]. }
     destruct H1 as (e1 & H1 & F1). destruct (IH _ _ _ _ _ Et) as (e2 & H2 & F2).
     exists (e1 ++ e2). split; [eapply news_trans; eauto|apply Forall_app; auto].
   Qed.
@@ -522,20 +556,20 @@ Section PassEvents.
   (** Every event of the archive reconciler: a pause request, the archival of an archivable revision, or a
       garbage-collection delete of one of the oldest revisions beyond the limit. *)
   Definition archive_ev (d : depl) (mem : list dset) (e : dev) : Prop :=
-    ens_ev e \/ (exists n pbp r, e = DUpdate n LArchived pbp r /\ archivable mem n) \/ gc_ev d (map sname (removelast mem)) e.
+    ens_ev e \/ (exists n pbp r, e = DUpdate n LArchived pbp r /\ archivable (seen_objects slices sliceaware) mem n) \/ gc_ev d (map sname (removelast mem)) e.
 
   Lemma archive_news st d has_cur mem st' mem' :
-    archive fault st d has_cur mem = (st', mem') ->
+    archive fault slices sliceaware st d has_cur mem = (st', mem') ->
     exists es, news st st' es /\ (has_cur = false -> es = []) /\ Forall (archive_ev d mem) es.
   Proof.
     unfold archive. destruct has_cur; cbn [negb].
-    - destruct (to_archive fault st mem (rev mem)) as [[st1 mem1] names] eqn:Et. intros Hm.
+    - destruct (to_archive fault slices sliceaware st mem (rev mem)) as [[st1 mem1] names] eqn:Et. intros Hm.
       destruct (to_archive_news _ _ _ _ _ _ Et) as (e1 & H1 & F1). destruct (mark_news _ _ _ _ _ _ _ Hm) as (e2 & H2 & F2).
       exists (e1 ++ e2). split; [eapply news_trans; eauto|]. split; [discriminate|]. apply Forall_app. split.
       + eapply Forall_impl; [|exact F1]. intros e He. now left.
       + eapply Forall_impl; [|exact F2]. intros e [(c & rr & Hc & ->)|He]; [|right; now right].
         right. left. exists (sname c), (ds_pbp c), rr. split; [reflexivity|].
-        apply (archive_kernel_sound fault _ _ _ _ _ _ Et). apply isort_in in Hc. eapply lookup_all_names; eauto.
+        apply (archive_kernel_sound fault slices sliceaware _ _ _ _ _ _ Et). apply isort_in in Hc. eapply lookup_all_names; eauto.
     - intros H. injection H as <- _. exists []. split; [apply news_refl|]. split; [reflexivity|constructor].
   Qed.
 
@@ -595,6 +629,8 @@ Qed.
 Section PassTheorems.
   Variable hash : N -> option N -> N.
   Variable fault : option (nat * bool).
+  Variable slices : N -> option (list pobj).
+  Variable sliceaware : bool.
 
   Definition st_init (w : dworld) : pst := {| p_w := w; p_evs := []; p_n := O; p_dead := false |}.
   Definition st_listed (w : dworld) : pst := read_req fault (read_req fault (st_init w)).
@@ -608,7 +644,7 @@ Section PassTheorems.
   Definition has_rev0 (L : list dset) : bool := existsb (fun s => Z.eqb (srev s) 0) L.
 
   Lemma dep_pass_unfold stale w w' evs r :
-    dep_pass hash fault stale w = (w', evs, r) ->
+    dep_pass hash fault slices sliceaware stale w = (w', evs, r) ->
     let L := listed stale w in let d1 := dep_hashed w in let hc := has_current d1 L in
     exists st3 d2,
       evs = p_evs (status_req fault st3 d2) /\
@@ -620,7 +656,7 @@ Section PassTheorems.
           ((d_paused d1 = true /\ st3 = stp /\ d2 = set_status d1 (fst (split_current hc mem)) (snd (split_current hc mem))) \/
            (d_paused d1 = false /\ exists sta d3 mem',
               new_revision fault stp d1 (fst (split_current hc mem)) (snd (split_current hc mem)) = (sta, d3) /\
-              archive fault sta d3 hc mem = (st3, mem') /\
+              archive fault slices sliceaware sta d3 hc mem = (st3, mem') /\
               d2 = set_status d3 (fst (split_current hc mem')) (snd (split_current hc mem')))))).
   Proof.
     unfold dep_pass. fold (st_init w). fold (st_listed w). fold (dep_hashed w). fold (has_rev0 (listed stale w)). cbv zeta.
@@ -633,7 +669,7 @@ Section PassTheorems.
         rewrite Es. auto.
       + destruct (split_current _ mem) as [cur prev] eqn:Es.
         destruct (new_revision fault stp (dep_hashed w) cur prev) as [sta d3] eqn:En.
-        destruct (archive fault sta d3 _ mem) as [stb mem'] eqn:Ea.
+        destruct (archive fault slices sliceaware sta d3 _ mem) as [stb mem'] eqn:Ea.
         destruct (split_current _ mem') as [cur' prev'] eqn:Es'. intros H. injection H as <- <- <-.
         eexists stb, _. repeat split. right. split; [reflexivity|]. exists stp, mem. split; [reflexivity|]. right.
         split; [reflexivity|]. exists sta, d3, mem'. rewrite Es, Es'. cbn [fst snd]. auto.
@@ -682,7 +718,7 @@ Section PassTheorems.
     | DUpdate n life pbp r =>
         norev0 /\
         match life with
-        | LArchived => d_paused d = false /\ has_current d1 L = true /\ archivable L n
+        | LArchived => d_paused d = false /\ has_current d1 L = true /\ archivable (seen_objects slices sliceaware) L n
         | LActive => d_paused d = false /\ pbp = false /\
                      exists s, In s L /\ sname s = n /\ is_archived s = false /\ paused_by_parent s = true
         | LPaused => if d_paused d
@@ -716,7 +752,7 @@ Section PassTheorems.
 
   Theorem dep_pass_justified stale w w' evs r :
     NoDup (map sname (dw_sets w)) ->
-    dep_pass hash fault stale w = (w', evs, r) -> Forall (justified stale w) evs.
+    dep_pass hash fault slices sliceaware stale w = (w', evs, r) -> Forall (justified stale w) evs.
   Proof.
     intros Hnd Hp. destruct (dep_pass_unfold _ _ _ _ _ Hp) as (st3 & d2 & -> & _ & _ & Hc).
     destruct (status_req_news st3 d2) as (es & Hn & Hes). rewrite Hn.
@@ -747,7 +783,7 @@ Section PassTheorems.
         destruct (set_status_keeps d1 (fst (split_current (has_current d1 L) mem)) (snd (split_current (has_current d1 L) mem))) as (H1 & H2 & _).
         apply Hstatus; [assumption|left; congruence].
       + destruct (new_revision_spec _ _ _ _ _ _ Enr) as (esn & Hnn & Hesn & Hd3).
-        destruct (archive_news fault _ _ _ _ _ _ Ear) as (esa & Hna & Hnil & Hesa).
+        destruct (archive_news fault slices sliceaware _ _ _ _ _ _ Ear) as (esa & Hna & Hnil & Hesa).
         unfold news in Hnn, Hna. rewrite Hna, Hnn, Hnp.
         assert (Hnames : map sname L = map sname mem) by now apply Forall2_same_core_names.
         assert (Hcur : fst (split_current (has_current d1 L) mem) = None -> has_current d1 L = false).
@@ -762,7 +798,7 @@ Section PassTheorems.
         * destruct (has_current d1 L) eqn:Ehc; [|rewrite (Hnil eq_refl); constructor].
           eapply Forall_impl; [|exact Hesa]. intros e [(n & pbp & rr & ->)|[(n & pbp & rr & -> & Harch)|(n & rr & -> & Hin)]].
           -- cbn. fold d1 L. split; [assumption|]. rewrite <- Hpa, Epa. exact Ehc.
-          -- cbn. fold d1 L. split; [assumption|]. rewrite <- Hpa. repeat split; auto. eapply archivable_core; eauto.
+          -- cbn. fold d1 L. split; [assumption|]. rewrite <- Hpa. repeat split; auto. eapply archivable_core; eauto. apply seen_objects_core.
           -- cbn. fold d1 L. rewrite <- Hpa. repeat split; auto.
              rewrite map_removelast, <- Hnames, <- map_removelast, map_length in Hin.
              unfold gc_count in *. now rewrite <- Hlim.
@@ -773,7 +809,7 @@ Section PassTheorems.
 
   (** ** C07, pass level *)
   Theorem create_justified stale w w' evs r n phs prev h cr :
-    NoDup (map sname (dw_sets w)) -> dep_pass hash fault stale w = (w', evs, r) -> In (DCreate n phs prev h cr) evs ->
+    NoDup (map sname (dw_sets w)) -> dep_pass hash fault slices sliceaware stale w = (w', evs, r) -> In (DCreate n phs prev h cr) evs ->
     d_paused (dw_dep w) = false /\ d_phases (dw_dep w) <> [] /\ (forall s, In s (listed stale w) -> srev s <> 0%Z) /\
     has_current (dep_hashed w) (listed stale w) = false /\
     n = hash (d_digest (dw_dep w)) (d_cc (dw_dep w)) /\ h = n /\ phs = d_phases (dw_dep w) /\ prev = map sname (listed stale w).
@@ -784,18 +820,18 @@ Section PassTheorems.
 
   (** ** C08, pass level *)
   Theorem archive_sound stale w w' evs r n pbp ur :
-    NoDup (map sname (dw_sets w)) -> dep_pass hash fault stale w = (w', evs, r) -> In (DUpdate n LArchived pbp ur) evs ->
-    d_paused (dw_dep w) = false /\ archivable (listed stale w) n.
+    NoDup (map sname (dw_sets w)) -> dep_pass hash fault slices sliceaware stale w = (w', evs, r) -> In (DUpdate n LArchived pbp ur) evs ->
+    d_paused (dw_dep w) = false /\ archivable (seen_objects slices sliceaware) (listed stale w) n.
   Proof.
     intros Hnd Hp Hin. pose proof (dep_pass_justified _ _ _ _ _ Hnd Hp) as HF. rewrite Forall_forall in HF.
     specialize (HF _ Hin). cbn in HF. tauto.
   Qed.
 
   Theorem newest_never_archived stale w w' evs r n pbp ur :
-    NoDup (map sname (dw_sets w)) -> dep_pass hash fault stale w = (w', evs, r) -> In (DUpdate n LArchived pbp ur) evs ->
+    NoDup (map sname (dw_sets w)) -> dep_pass hash fault slices sliceaware stale w = (w', evs, r) -> In (DUpdate n LArchived pbp ur) evs ->
     exists l0 newest, listed stale w = l0 ++ [newest] /\ sname newest <> n.
   Proof.
-    intros Hnd Hp Hin. apply archivable_not_newest; [now apply listed_nodup|]. eapply archive_sound; eauto.
+    intros Hnd Hp Hin. apply (archivable_not_newest (seen_objects slices sliceaware)); [now apply listed_nodup|]. eapply archive_sound; eauto.
   Qed.
 
   Lemma firstn_in {A} (l : list A) : forall k x, In x (firstn k l) -> In x l.
@@ -805,7 +841,7 @@ Section PassTheorems.
   Proof. now rewrite removelast_app, app_nil_r by discriminate. Qed.
 
   Theorem gc_sound stale w w' evs r n dr :
-    NoDup (map sname (dw_sets w)) -> dep_pass hash fault stale w = (w', evs, r) -> In (DDelete n dr) evs ->
+    NoDup (map sname (dw_sets w)) -> dep_pass hash fault slices sliceaware stale w = (w', evs, r) -> In (DDelete n dr) evs ->
     exists l0 newest, listed stale w = l0 ++ [newest] /\
       In n (firstn (Z.to_nat (Z.of_nat (length l0) - match d_limit (dw_dep w) with Some l => l | None => 10 end)) (map sname l0)) /\
       sname newest <> n.
@@ -820,7 +856,7 @@ Section PassTheorems.
 
   (** ** C09, deployment level *)
   Theorem paused_hands_off stale w w' evs r e :
-    NoDup (map sname (dw_sets w)) -> dep_pass hash fault stale w = (w', evs, r) -> d_paused (dw_dep w) = true -> In e evs ->
+    NoDup (map sname (dw_sets w)) -> dep_pass hash fault slices sliceaware stale w = (w', evs, r) -> d_paused (dw_dep w) = true -> In e evs ->
     (exists n ur s, e = DUpdate n LPaused true ur /\ In s (listed stale w) /\ sname s = n /\ is_archived s = false /\ paused_by_parent s = false) \/
     (exists h cc cs rv co sr, e = DStatus h cc cs rv co sr /\ cc = d_cc (dw_dep w)).
   Proof.
@@ -834,7 +870,7 @@ Section PassTheorems.
   Qed.
 
   Theorem unpause_releases_annotated stale w w' evs r n pbp ur :
-    NoDup (map sname (dw_sets w)) -> dep_pass hash fault stale w = (w', evs, r) -> In (DUpdate n LActive pbp ur) evs ->
+    NoDup (map sname (dw_sets w)) -> dep_pass hash fault slices sliceaware stale w = (w', evs, r) -> In (DUpdate n LActive pbp ur) evs ->
     d_paused (dw_dep w) = false /\ pbp = false /\
     exists s, In s (listed stale w) /\ sname s = n /\ is_archived s = false /\ is_spec_paused s = true /\ ds_pbp s = true.
   Proof.
@@ -856,10 +892,13 @@ Proof. reflexivity. Qed.
 
 Section Reach.
   Variable fault : option (nat * bool).
+  Variable slices : N -> option (list pobj).
+  Variable sliceaware : bool.
 
   Inductive reach (st0 : pst) : pst -> Prop :=
   | r_refl : reach st0 st0
   | r_read st : reach st0 st -> reach st0 (read_req fault st)
+  | r_get st b : reach st0 st -> reach st0 (get_req fault st b)
   | r_upd st s life pbp : reach st0 st -> reach st0 (fst (upd_req fault st s life pbp))
   | r_del st n : reach st0 st -> reach st0 (del_req fault st n)
   | r_create st d prev : reach st0 st -> reach st0 (fst (create_req fault st (new_set d prev)))
@@ -898,16 +937,21 @@ Section Reach.
     eapply IH; [|exact Er2]. eapply ensure_paused_reach; eauto.
   Qed.
 
-  Lemma to_archive_reach st0 : forall rl st mem st' mem' l,
-    reach st0 st -> to_archive fault st mem rl = (st', mem', l) -> reach st0 st'.
+  Lemma to_archive_reach st0' : forall rl st mem st' mem' l,
+    reach st0' st -> to_archive fault slices sliceaware st mem rl = (st', mem', l) -> reach st0' st'.
   Proof.
     induction rl as [|cur rest IH]; intros st mem st' mem' l Hr H; [cbn in H; now injection H as <- _ _|].
     cbn [to_archive] in H. destruct (is_available cur); [eapply archive_all_later_reach; eauto|].
     destruct rest as [|prev rest']; [now injection H as <- _ _|].
     destruct (is_archived prev); [eapply IH; eauto|]. destruct (srev cur <=? srev prev)%Z; [eapply IH; eauto|].
-    destruct (intermediate fault st mem prev cur) as [[st1 mem1] b] eqn:Ei.
-    destruct (to_archive fault st1 mem1 (prev :: rest')) as [[st2 mem2] l2] eqn:Et. injection H as <- _ _.
-    eapply IH; [|exact Et]. unfold intermediate in Ei. destruct (active_objects prev); [|now injection Ei as <- _ _].
+    destruct (intermediate fault slices sliceaware st mem prev cur) as [[st1 mem1] b] eqn:Ei.
+    destruct (to_archive fault slices sliceaware st1 mem1 (prev :: rest')) as [[st2 mem2] l2] eqn:Et. injection H as <- _ _.
+    eapply IH; [|exact Et]. unfold intermediate in Ei.
+    set (st0 := if sliceaware then load_slices_req fault slices st cur else st) in Ei.
+    assert (H0 : reach st0' st0).
+    { unfold st0. destruct sliceaware; [|assumption]. unfold load_slices_req. clear Ei st0. generalize (slice_refs cur). intros refs. revert st Hr.
+      induction refs as [|n r IHl]; intros st Hr; cbn; [assumption|]. apply IHl. now constructor. }
+    destruct (active_objects prev); [|now injection Ei as <- _ _].
     destruct (is_nil _ && negb _); [eapply ensure_paused_reach; eauto|now injection Ei as <- _ _].
   Qed.
 
@@ -926,10 +970,10 @@ Section Reach.
   Qed.
 
   Lemma archive_reach st0 st d has_cur mem st' mem' :
-    reach st0 st -> archive fault st d has_cur mem = (st', mem') -> reach st0 st'.
+    reach st0 st -> archive fault slices sliceaware st d has_cur mem = (st', mem') -> reach st0 st'.
   Proof.
     unfold archive. intros Hr. destruct has_cur; cbn [negb]; [|intros H; now injection H as <- _].
-    destruct (to_archive fault st mem (rev mem)) as [[st1 mem1] names] eqn:Et. intros Hm.
+    destruct (to_archive fault slices sliceaware st mem (rev mem)) as [[st1 mem1] names] eqn:Et. intros Hm.
     eapply mark_reach; [|exact Hm]. eapply to_archive_reach; eauto.
   Qed.
 
@@ -1136,6 +1180,9 @@ Section Reach.
   Lemma frame_read st : frame st (read_req fault st) [].
   Proof. apply frame_same; [apply read_req_w|now rewrite read_req_evs, app_nil_r|contradiction]. Qed.
 
+  Lemma frame_get st b : frame st (get_req fault st b) [].
+  Proof. apply frame_same; [apply get_req_w|now rewrite get_req_evs, app_nil_r|contradiction]. Qed.
+
   Lemma frame_status st d : exists es, frame st (status_req fault st d) es.
   Proof.
     unfold status_req. destruct (p_dead st); [exists []; apply frame_same; [reflexivity|now rewrite app_nil_r|contradiction]|].
@@ -1159,9 +1206,10 @@ Section Reach.
 
   Lemma reach_frame st0 st : reach st0 st -> exists es, frame st0 st es.
   Proof.
-    induction 1 as [|st H (es & IH)|st s life pbp H (es & IH)|st n H (es & IH)|st d prev H (es & IH)|st d H (es & IH)].
+    induction 1 as [|st H (es & IH)|st b H (es & IH)|st s life pbp H (es & IH)|st n H (es & IH)|st d prev H (es & IH)|st d H (es & IH)].
     - exists []. apply frame_same; [reflexivity|now rewrite app_nil_r|contradiction].
     - exists (es ++ []). eapply frame_trans; [exact IH|apply frame_read].
+    - exists (es ++ []). eapply frame_trans; [exact IH|apply frame_get].
     - destruct (frame_upd st s life pbp) as (e2 & F). exists (es ++ e2). eapply frame_trans; eauto.
     - destruct (frame_del st n) as (e2 & F). exists (es ++ e2). eapply frame_trans; eauto.
     - destruct (frame_create st d prev) as (e2 & F). exists (es ++ e2). eapply frame_trans; eauto.
@@ -1172,11 +1220,13 @@ End Reach.
 Section PassFrame.
   Variable hash : N -> option N -> N.
   Variable fault : option (nat * bool).
+  Variable slices : N -> option (list pobj).
+  Variable sliceaware : bool.
 
   (** What one pass does to the world: ObjectSets keep their identity fields, only garbage-collected ones
       disappear, at most the ObjectSet of a successful create appears; member objects are never touched. *)
   Theorem dep_pass_frame stale w w' evs r :
-    dep_pass hash fault stale w = (w', evs, r) ->
+    dep_pass hash fault slices sliceaware stale w = (w', evs, r) ->
     (NoDup (map sname (dw_sets w)) -> NoDup (map sname (dw_sets w'))) /\
     (forall x', In x' (dw_sets w') -> (exists x, In x (dw_sets w) /\ sid x' = sid x) \/ created evs x') /\
     (forall x, In x (dw_sets w) -> (forall dr, ~ In (DDelete (sname x) dr) evs) ->
@@ -1188,14 +1238,14 @@ Section PassFrame.
      d_digest (dw_dep w') = d_digest (dw_dep w) /\ d_phases (dw_dep w') = d_phases (dw_dep w) /\ d_limit (dw_dep w') = d_limit (dw_dep w) /\
      (d_cc (dw_dep w') = d_cc (dw_dep w) \/ exists h cs rv co sr, In (DStatus h (d_cc (dw_dep w')) cs rv co sr) evs)).
   Proof.
-    intros Hp. destruct (dep_pass_unfold _ _ _ _ _ _ _ Hp) as (st3 & d2 & -> & -> & _ & Hc).
+    intros Hp. destruct (dep_pass_unfold _ _ _ _ _ _ _ _ _ Hp) as (st3 & d2 & -> & -> & _ & Hc).
     assert (Hr : reach fault (st_init w) (status_req fault st3 d2)).
     { constructor. assert (H0 : reach fault (st_init w) (st_listed fault w)) by (unfold st_listed; repeat constructor).
       destruct Hc as [(_ & -> & _)|(_ & stp & mem & Epl & Hc)]; [assumption|].
       pose proof (pause_loop_reach _ _ _ _ _ _ _ H0 Epl) as H1.
       destruct Hc as [(_ & -> & _)|(_ & sta & d3 & mem' & Enr & Ear & _)]; [assumption|].
       eapply archive_reach; [|exact Ear]. eapply new_revision_reach; eauto. }
-    destruct (reach_frame _ _ _ Hr) as (es & F). pose proof (f_evs _ _ _ F) as He. cbn in He. subst es.
+    destruct (reach_frame fault slices _ _ Hr) as (es & F). pose proof (f_evs _ _ _ F) as He. cbn in He. subst es.
     destruct F as [_ F2 F3 F4 F5 F6 F7]. unfold sets_of in *. cbn [st_init p_w with_fresh dw_sets dw_dep dw_w] in *. repeat split; try tauto.
     all: try (destruct F7 as (A1 & A2 & A3 & A4 & A5 & A6 & A7); assumption).
   Qed.
@@ -1433,6 +1483,8 @@ Qed.
 Section PassBump.
   Variable hash : N -> option N -> N.
   Variable fault : option (nat * bool).
+  Variable slices : N -> option (list pobj).
+  Variable sliceaware : bool.
 
   Definition is_update (e : dev) : Prop := match e with DUpdate _ _ _ _ => True | _ => False end.
   Definition not_create_status (e : dev) : Prop := match e with DCreate _ _ _ _ _ | DStatus _ _ _ _ _ _ => False | _ => True end.
@@ -1458,11 +1510,11 @@ Section PassBump.
 
   (** The collision counter changes only in a pass whose Create was answered AlreadyExists. *)
   Lemma dep_pass_bump stale w w' evs r h cc cs rv co sr :
-    dep_pass hash fault stale w = (w', evs, r) -> In (DStatus h cc cs rv co sr) evs ->
+    dep_pass hash fault slices sliceaware stale w = (w', evs, r) -> In (DStatus h cc cs rv co sr) evs ->
     cc = d_cc (dw_dep w) \/
     (cc = bump_cc (d_cc (dw_dep w)) /\ forall n phs prev hh cr, In (DCreate n phs prev hh cr) evs -> cr = CrExists).
   Proof.
-    intros Hp Hin. destruct (dep_pass_unfold _ _ _ _ _ _ _ Hp) as (st3 & d2 & -> & _ & _ & Hc).
+    intros Hp Hin. destruct (dep_pass_unfold _ _ _ _ _ _ _ _ _ Hp) as (st3 & d2 & -> & _ & _ & Hc).
     destruct (status_req_news fault st3 d2) as (ess & Hn & Hess). rewrite Hn in *.
     assert (Hfin : forall es3, p_evs st3 = es3 -> Forall (fun e => match e with DStatus _ _ _ _ _ _ => False | _ => True end) es3 ->
               (d_cc d2 = d_cc (dw_dep w) \/ (d_cc d2 = bump_cc (d_cc (dw_dep w)) /\ forall n phs prev hh cr, In (DCreate n phs prev hh cr) es3 -> cr = CrExists)) ->
@@ -1482,7 +1534,7 @@ Section PassBump.
         * eapply Forall_impl; [|exact Hesp']. intros []; auto.
         * left. now destruct (set_status_keeps (dep_hashed hash w) (fst (split_current (has_current (dep_hashed hash w) (listed stale w)) mem)) (snd (split_current (has_current (dep_hashed hash w) (listed stale w)) mem))) as (_ & -> & _).
       + destruct (new_revision_spec _ _ _ _ _ _ _ Enr) as (esn & Hnn & Hesn & Hd3).
-        destruct (archive_news fault _ _ _ _ _ _ Ear) as (esa & Hna & _ & Hesa).
+        destruct (archive_news fault slices sliceaware _ _ _ _ _ _ Ear) as (esa & Hna & _ & Hesa).
         unfold news in Hnn, Hna.
         assert (Hesa' : Forall (fun e => match e with DStatus _ _ _ _ _ _ => False | DCreate _ _ _ _ _ => False | _ => True end) esa).
         { eapply Forall_impl; [|exact Hesa]. intros e [(n & pbp & rr & ->)|[(n & pbp & rr & -> & _)|(n & rr & -> & _)]]; exact I. }
@@ -1503,6 +1555,8 @@ End PassBump.
 (** ** Histories *)
 Section Histories.
   Variable hash : N -> option N -> N.
+  Variable slices : N -> option (list pobj).
+  Variable sliceaware : bool.
 
   (** The steps the history theorems quantify over: everything except a stale List. *)
   Definition ok_step (s : step) : Prop :=
@@ -1520,14 +1574,14 @@ Section Histories.
   Proof. intros (r & H & _). now exists r. Qed.
 
   Lemma inv_dep_pass fault w w' evs r :
-    Inv w -> dep_pass hash fault false w = (w', evs, r) -> Inv w'.
+    Inv w -> dep_pass hash fault slices sliceaware false w = (w', evs, r) -> Inv w'.
   Proof.
-    intros [U1 U2 U3] Hp. destruct (dep_pass_frame _ _ _ _ _ _ _ Hp) as (Hnd & Hold & _).
+    intros [U1 U2 U3] Hp. destruct (dep_pass_frame _ _ _ _ _ _ _ _ _ Hp) as (Hnd & Hold & _).
     assert (Hcr : forall x', created evs x' -> srev x' = 0%Z /\ ds_sel x' = true /\
                    (forall s, In s (dw_sets w) -> ds_sel s = true -> srev s <> 0%Z /\ In (sname s) (os_prev (ds_set x'))) /\
                    sname x' = hash (d_digest (dw_dep w)) (d_cc (dw_dep w))).
     { intros x' Hc. pose proof Hc as (rr & Hi & _ & H0 & Hs & _).
-      destruct (create_justified _ _ _ _ _ _ _ _ _ _ _ _ U1 Hp Hi) as (_ & _ & Hn0 & _ & Hn & _ & _ & Hprev).
+      destruct (create_justified _ _ _ _ _ _ _ _ _ _ _ _ _ _ U1 Hp Hi) as (_ & _ & Hn0 & _ & Hn & _ & _ & Hprev).
       repeat split; auto.
       - apply Hn0. now apply listed_fresh_iff.
       - rewrite Hprev. apply in_map. now apply listed_fresh_iff. }
@@ -1565,9 +1619,9 @@ Section Histories.
 
   Lemma do_step_oset w s :
     Inv w -> ok_step s -> (forall st f, s <> SDep st f) ->
-    oset_step (dw_sets w) (dw_sets (do_step hash w s)) /\
-    ((forall dg phs, s <> SEdit dg phs) -> d_digest (dw_dep (do_step hash w s)) = d_digest (dw_dep w)) /\
-    d_cc (dw_dep (do_step hash w s)) = d_cc (dw_dep w).
+    oset_step (dw_sets w) (dw_sets (do_step hash slices sliceaware w s)) /\
+    ((forall dg phs, s <> SEdit dg phs) -> d_digest (dw_dep (do_step hash slices sliceaware w s)) = d_digest (dw_dep w)) /\
+    d_cc (dw_dep (do_step hash slices sliceaware w s)) = d_cc (dw_dep w).
   Proof.
     intros HI Hok Hnd. pose proof (i_nodup _ HI) as U1. destruct s; cbn [do_step].
     - rewrite edit_dep_sets. split; [apply oset_step_refl|]. split; [intros H; now elim (H dg phs)|]. unfold edit_dep. destruct (negb _ || negb _); reflexivity.
@@ -1591,14 +1645,14 @@ Section Histories.
       destruct (o_avail o =? avail); split; try apply oset_step_refl; auto.
   Qed.
 
-  Theorem inv_step w s : Inv w -> ok_step s -> Inv (do_step hash w s).
+  Theorem inv_step w s : Inv w -> ok_step s -> Inv (do_step hash slices sliceaware w s).
   Proof.
     intros HI Hok. destruct s as [dg phs|b|l|stale fault|force n|n|n cs co coset|n|k a];
       try (eapply inv_oset_step; [exact HI|]; apply do_step_oset; auto; intros st f; discriminate).
-    - cbn in Hok. subst stale. cbn [do_step]. destruct (dep_pass hash fault false w) as [[w' evs] r] eqn:Ep. eapply inv_dep_pass; eauto.
+    - cbn in Hok. subst stale. cbn [do_step]. destruct (dep_pass hash fault slices sliceaware false w) as [[w' evs] r] eqn:Ep. eapply inv_dep_pass; eauto.
   Qed.
 
-  Theorem inv_run h : forall w, Inv w -> Forall ok_step h -> Inv (run hash w h).
+  Theorem inv_run h : forall w, Inv w -> Forall ok_step h -> Inv (run hash slices sliceaware w h).
   Proof.
     induction h as [|s r IH]; cbn; intros w HI HF; [assumption|]. inversion HF; subst. apply IH; [now apply inv_step|assumption].
   Qed.
@@ -1607,6 +1661,8 @@ End Histories.
 (** ** Exactly one ObjectSet per template (fresh lists) *)
 Section ExactlyOne.
   Variable hash : N -> option N -> N.
+  Variable slices : N -> option (list pobj).
+  Variable sliceaware : bool.
 
   Definition cur_hash (w : dworld) : N := hash (d_digest (dw_dep w)) (d_cc (dw_dep w)).
 
@@ -1641,24 +1697,24 @@ Section ExactlyOne.
   (** While the template is matched, a pass neither creates an ObjectSet nor touches the collision counter,
       and the template stays matched. *)
   Lemma matched_dep_pass fault w w' evs r :
-    Inv w -> matched w -> dep_pass hash fault false w = (w', evs, r) ->
+    Inv w -> matched w -> dep_pass hash fault slices sliceaware false w = (w', evs, r) ->
     (forall n phs prev h cr, ~ In (DCreate n phs prev h cr) evs) /\ matched w'.
   Proof.
     intros HI (s & Hs & Hsel & Hh & Hdel & Hmax) Hp. pose proof (i_nodup _ HI) as U1.
     pose proof (matched_listed w s U1 Hs Hsel Hh Hmax) as Hcase.
     assert (Hnc : forall n phs prev h cr, ~ In (DCreate n phs prev h cr) evs).
-    { intros n phs prev h cr Hi. destruct (create_justified _ _ _ _ _ _ _ _ _ _ _ _ U1 Hp Hi) as (_ & _ & Hn0 & Hhc & _).
+    { intros n phs prev h cr Hi. destruct (create_justified _ _ _ _ _ _ _ _ _ _ _ _ _ _ U1 Hp Hi) as (_ & _ & Hn0 & Hhc & _).
       destruct Hcase as [(E0 & HsL)|(_ & _ & Hc)]; [exact (Hn0 s HsL E0)|congruence]. }
     split; [exact Hnc|].
-    destruct (dep_pass_frame _ _ _ _ _ _ _ Hp) as (_ & Hold & Hkeep & _ & _ & (_ & _ & _ & Hdg & _ & _ & Hcc)).
+    destruct (dep_pass_frame _ _ _ _ _ _ _ _ _ Hp) as (_ & Hold & Hkeep & _ & _ & (_ & _ & _ & Hdg & _ & _ & Hcc)).
     assert (Hcc' : d_cc (dw_dep w') = d_cc (dw_dep w)).
     { destruct Hcc as [Hcc|(h & cs & rv & co & sr & Hi)]; [assumption|].
-      pose proof (dep_pass_justified _ _ _ _ _ _ _ U1 Hp) as HF. rewrite Forall_forall in HF. specialize (HF _ Hi). cbn in HF.
+      pose proof (dep_pass_justified _ _ _ _ _ _ _ _ _ U1 Hp) as HF. rewrite Forall_forall in HF. specialize (HF _ Hi). cbn in HF.
       destruct HF as (_ & [Hc|(_ & _ & Hhc & Hn0)]); [assumption|].
       destruct Hcase as [(E0 & HsL)|(_ & _ & Hc)]; [elim (Hn0 s HsL E0)|congruence]. }
     destruct (Hkeep s Hs) as (s' & Hs' & Es & Ds).
-    { intros dr Hi. destruct (gc_sound _ _ _ _ _ _ _ _ _ U1 Hp Hi) as (l0 & newest & EL & _ & Hne).
-      pose proof (dep_pass_justified _ _ _ _ _ _ _ U1 Hp) as HF. rewrite Forall_forall in HF. specialize (HF _ Hi). cbn in HF.
+    { intros dr Hi. destruct (gc_sound _ _ _ _ _ _ _ _ _ _ _ U1 Hp Hi) as (l0 & newest & EL & _ & Hne).
+      pose proof (dep_pass_justified _ _ _ _ _ _ _ _ _ U1 Hp) as HF. rewrite Forall_forall in HF. specialize (HF _ Hi). cbn in HF.
       destruct HF as (_ & Hn0 & _). destruct Hcase as [(E0 & HsL)|(_ & (l1 & EL1) & _)]; [exact (Hn0 s HsL E0)|].
       rewrite EL in EL1. apply app_inj_tail in EL1. destruct EL1 as [_ ->]. now apply Hne. }
     assert (Es' : sname s' = sname s /\ srev s' = srev s /\ ds_sel s' = ds_sel s /\ ds_hash s' = ds_hash s) by (unfold sid in Es; injection Es; auto).
@@ -1688,28 +1744,28 @@ Section ExactlyOne.
 
   (** A pass that creates an ObjectSet leaves the template matched. *)
   Lemma creating_pass_matches fault w w' evs r n :
-    Inv w -> dep_pass hash fault false w = (w', evs, r) -> created_name evs = Some n -> matched w'.
+    Inv w -> dep_pass hash fault slices sliceaware false w = (w', evs, r) -> created_name evs = Some n -> matched w'.
   Proof.
     intros HI Hp Hcn. pose proof (i_nodup _ HI) as U1.
     destruct (created_name_some _ _ Hcn) as (phs & prev & h & cr & Hi & Hcr).
-    destruct (create_justified _ _ _ _ _ _ _ _ _ _ _ _ U1 Hp Hi) as (_ & _ & Hn0 & Hhc & Hn & Hh & _ & _).
-    pose proof (dep_pass_justified _ _ _ _ _ _ _ U1 Hp) as HF. rewrite Forall_forall in HF.
-    destruct (dep_pass_frame _ _ _ _ _ _ _ Hp) as (_ & Hold & _ & Hnew & _ & (_ & _ & _ & Hdg & _ & _ & Hcc)).
+    destruct (create_justified _ _ _ _ _ _ _ _ _ _ _ _ _ _ U1 Hp Hi) as (_ & _ & Hn0 & Hhc & Hn & Hh & _ & _).
+    pose proof (dep_pass_justified _ _ _ _ _ _ _ _ _ U1 Hp) as HF. rewrite Forall_forall in HF.
+    destruct (dep_pass_frame _ _ _ _ _ _ _ _ _ Hp) as (_ & Hold & _ & Hnew & _ & (_ & _ & _ & Hdg & _ & _ & Hcc)).
     destruct (Hnew _ _ _ _ _ Hi Hcr) as (x' & Hx' & Nx & Hc & Dx).
     { intros dr Hd. specialize (HF _ Hd). cbn in HF. destruct HF as (_ & _ & Hc & _). congruence. }
     assert (Hcc' : d_cc (dw_dep w') = d_cc (dw_dep w)).
     { destruct Hcc as [Hcc|(h0 & cs & rv & co & sr & His)]; [assumption|].
-      destruct (dep_pass_bump _ _ _ _ _ _ _ _ _ _ _ _ _ Hp His) as [Hc0|(_ & Hall)]; [assumption|].
+      destruct (dep_pass_bump _ _ _ _ _ _ _ _ _ _ _ _ _ _ _ Hp His) as [Hc0|(_ & Hall)]; [assumption|].
       specialize (Hall _ _ _ _ _ Hi). destruct Hcr; congruence. }
     pose proof Hc as (rr & Hix & _ & R0 & Sx & (hx & Hhx)).
-    destruct (create_justified _ _ _ _ _ _ _ _ _ _ _ _ U1 Hp Hix) as (_ & _ & _ & _ & _ & Hh' & _ & _). rewrite Hhx in Hh'.
+    destruct (create_justified _ _ _ _ _ _ _ _ _ _ _ _ _ _ U1 Hp Hix) as (_ & _ & _ & _ & _ & Hh' & _ & _). rewrite Hhx in Hh'.
     exists x'. unfold cur_hash in *. rewrite Hdg, Hcc'. split; [assumption|]. split; [assumption|]. split; [congruence|]. split; [assumption|].
     intros t Ht Hst Hne. split; [|now left].
     destruct (Hold t Ht) as [(t0 & Ht0 & Et)|Hct].
     - assert (Et' : srev t = srev t0 /\ ds_sel t = ds_sel t0) by (unfold sid in Et; injection Et; auto). destruct Et' as (Rt & St).
       rewrite Rt. apply Hn0. apply listed_fresh_iff. split; [assumption|congruence].
     - exfalso. destruct (created_event _ _ Hct) as (r2 & Hi2).
-      destruct (create_justified _ _ _ _ _ _ _ _ _ _ _ _ U1 Hp Hi2) as (_ & _ & _ & _ & Hn2 & _). congruence.
+      destruct (create_justified _ _ _ _ _ _ _ _ _ _ _ _ _ _ U1 Hp Hi2) as (_ & _ & _ & _ & Hn2 & _). congruence.
   Qed.
 
   (** Matched-ness survives every step of the ObjectSet side and every deployment edit that keeps the template. *)
@@ -1732,7 +1788,7 @@ Section ExactlyOne.
   (** *** Counting creations and template changes along a history *)
   Definition creates_b (w : dworld) (s : step) : bool :=
     match s with
-    | SDep stale fault => let '(_, evs, _) := dep_pass hash fault stale w in match created_name evs with Some _ => true | None => false end
+    | SDep stale fault => let '(_, evs, _) := dep_pass hash fault slices sliceaware stale w in match created_name evs with Some _ => true | None => false end
     | _ => false
     end.
   Definition changes_b (w : dworld) (s : step) : bool :=
@@ -1741,32 +1797,32 @@ Section ExactlyOne.
     | _ => false
     end.
   Fixpoint count_creates (w : dworld) (h : list step) : nat :=
-    match h with [] => O | s :: r => ((if creates_b w s then 1 else 0) + count_creates (do_step hash w s) r)%nat end.
+    match h with [] => O | s :: r => ((if creates_b w s then 1 else 0) + count_creates (do_step hash slices sliceaware w s) r)%nat end.
   Fixpoint count_changes (w : dworld) (h : list step) : nat :=
-    match h with [] => O | s :: r => ((if changes_b w s then 1 else 0) + count_changes (do_step hash w s) r)%nat end.
+    match h with [] => O | s :: r => ((if changes_b w s then 1 else 0) + count_changes (do_step hash slices sliceaware w s) r)%nat end.
 
   Lemma matched_step w s : Inv w -> matched w -> ok_step s -> changes_b w s = false ->
-    creates_b w s = false /\ matched (do_step hash w s).
+    creates_b w s = false /\ matched (do_step hash slices sliceaware w s).
   Proof.
     intros HI HM Hok Hch. destruct s as [dg phs|b|l|stale fault|force n|n|n cs co coset|n|k a].
     - split; [reflexivity|]. cbn in Hch. cbn [do_step]. rewrite Hch. exact HM.
-    - split; [reflexivity|]. eapply matched_oset_step; eauto; apply (do_step_oset hash w (SPause b)); auto; intros; discriminate.
-    - split; [reflexivity|]. eapply matched_oset_step; eauto; apply (do_step_oset hash w (SLimit l)); auto; intros; discriminate.
-    - cbn in Hok. subst stale. cbn [creates_b do_step]. destruct (dep_pass hash fault false w) as [[w' evs] r] eqn:Ep.
+    - split; [reflexivity|]. eapply matched_oset_step; eauto; apply (do_step_oset hash slices sliceaware w (SPause b)); auto; intros; discriminate.
+    - split; [reflexivity|]. eapply matched_oset_step; eauto; apply (do_step_oset hash slices sliceaware w (SLimit l)); auto; intros; discriminate.
+    - cbn in Hok. subst stale. cbn [creates_b do_step]. destruct (dep_pass hash fault slices sliceaware false w) as [[w' evs] r] eqn:Ep.
       destruct (matched_dep_pass _ _ _ _ _ HI HM Ep) as (Hnc & HM'). split; [|exact HM'].
       destruct (created_name evs) as [n|] eqn:Ec; [|reflexivity].
       destruct (created_name_some _ _ Ec) as (a & b & c & d & Hi & _). elim (Hnc _ _ _ _ _ Hi).
     - destruct Hok.
-    - split; [reflexivity|]. eapply matched_oset_step; eauto; apply (do_step_oset hash w (SRev n)); auto; intros; discriminate.
-    - split; [reflexivity|]. eapply matched_oset_step; eauto; apply (do_step_oset hash w (SStat n cs co coset)); auto; intros; discriminate.
-    - split; [reflexivity|]. eapply matched_oset_step; eauto; apply (do_step_oset hash w (SVanish n)); auto; intros; discriminate.
-    - split; [reflexivity|]. eapply matched_oset_step; eauto; apply (do_step_oset hash w (SMember k a)); auto; intros; discriminate.
+    - split; [reflexivity|]. eapply matched_oset_step; eauto; apply (do_step_oset hash slices sliceaware w (SRev n)); auto; intros; discriminate.
+    - split; [reflexivity|]. eapply matched_oset_step; eauto; apply (do_step_oset hash slices sliceaware w (SStat n cs co coset)); auto; intros; discriminate.
+    - split; [reflexivity|]. eapply matched_oset_step; eauto; apply (do_step_oset hash slices sliceaware w (SVanish n)); auto; intros; discriminate.
+    - split; [reflexivity|]. eapply matched_oset_step; eauto; apply (do_step_oset hash slices sliceaware w (SMember k a)); auto; intros; discriminate.
   Qed.
 
-  Lemma creating_step_matches w s : Inv w -> ok_step s -> creates_b w s = true -> matched (do_step hash w s).
+  Lemma creating_step_matches w s : Inv w -> ok_step s -> creates_b w s = true -> matched (do_step hash slices sliceaware w s).
   Proof.
     intros HI Hok Hc. destruct s; try discriminate. cbn in Hok. subst stale. cbn [creates_b do_step] in *.
-    destruct (dep_pass hash fault false w) as [[w' evs] r] eqn:Ep. destruct (created_name evs) as [n|] eqn:Ec; [|discriminate].
+    destruct (dep_pass hash fault slices sliceaware false w) as [[w' evs] r] eqn:Ep. destruct (created_name evs) as [n|] eqn:Ec; [|discriminate].
     eapply creating_pass_matches; eauto.
   Qed.
 
@@ -1774,7 +1830,7 @@ Section ExactlyOne.
     (matched w -> (count_creates w h <= count_changes w h)%nat) /\ (count_creates w h <= 1 + count_changes w h)%nat.
   Proof.
     induction h as [|s r IH]; intros w HI HF; [cbn; split; intros; lia|]. inversion HF as [|? ? Hok HFr]; subst.
-    pose proof (inv_step hash w s HI Hok) as HI'. destruct (IH _ HI' HFr) as (IHm & IHb). cbn [count_creates count_changes].
+    pose proof (inv_step hash slices sliceaware w s HI Hok) as HI'. destruct (IH _ HI' HFr) as (IHm & IHb). cbn [count_creates count_changes].
     destruct (changes_b w s) eqn:Ech.
     - assert (Hnc : creates_b w s = false) by (destruct s; try reflexivity; discriminate). rewrite Hnc. split; intros; lia.
     - split.
